@@ -35,7 +35,7 @@ import (
 
 func TestMain(m *testing.M) {
 	harness.Describe(
-		"(i) histories over {push(background parent), push(parent = current top), interrupt, finish(level k of the live stack, top or below), re-finish, stop} on ctxstack.Stack with a harness-owned synchronous trigger, enumerated exhaustively up to the tier's length bound (depth<=5) and drawn by rapid beyond; after every step ctx.Err() of every context ever pushed is compared with a stack model. (ii) pusher/finisher goroutine vs interrupter goroutine under -race with randomised yields; the bottom level is never top while interrupts are sent and must survive. (iii) in-process nested REPL with scripted readline and harness-owned interrupt channel. (iv) CtxWriter write/cancel sequences. Non-trivial: history reaches depth>=2 and has an interrupt while >=2 contexts are live; distinct = the history itself.",
+		"(i) histories over {push(background parent), push(parent = current top), interrupt, finish(level k of the live stack, top or below), re-finish, stop} on ctxstack.Stack with a harness-owned synchronous trigger, enumerated exhaustively up to the tier's length bound (depth<=5) and drawn by rapid beyond; after every step ctx.Err() of every context ever pushed is compared with a stack model. (ii) pusher/finisher goroutine vs interrupter goroutine under -race with randomised yields; the bottom level is never top while interrupts are sent and must survive. (iii) in-process nested REPL with scripted readline and harness-owned interrupt channel. (iv) CtxWriter write/cancel sequences, single and as stacks of 2..5 writers over child contexts (as interp.Eval nests them); (v) scenarios that interrupt after nested evaluations ended in different ways; (vi) ctxreadseeker: cancellation racing reads and seeks, and a gated reader that forces a call to be in flight when its context is cancelled (the race detector decides). Non-trivial: history reaches depth>=2 and has an interrupt while >=2 contexts are live; distinct = the history itself.",
 		"finishing an inner level after its enclosing level already finished is not generated (cannot happen in fq: the inner iterator is driven by the outer one)",
 		"the Go scheduler is not owned by the harness: (ii) explores interleavings by repetition under the race detector",
 		"liveness is only checked through a 60 s watchdog on an evaluation that can end by cancellation only",
